@@ -69,8 +69,10 @@ def run(ck):
         for f in ws:
             want = [exp[f].k] if exp[f].faulty else []
             got = view.get(f)
-            if got is None or got[0] != want or got[2]:
-                bad = "published diagnostics of %s are %s, final state has %s" % (sessions.FILES[f], got, want)
+            # (a text with the cut-short declaration has syntax errors and nothing else besides its Und fault)
+            syn_ok = got is not None and (bool(got[2]) == bool(getattr(exp[f], "syn", False))) and all(m.startswith("expected") for m in got[2])
+            if got is None or got[0] != want or not syn_ok:
+                bad = "published diagnostics of %s are %s, final state has %s%s" % (sessions.FILES[f], got, want, " plus syntax errors" if getattr(exp[f], "syn", False) else "")
                 break
         if bad is None:
             for f, got in view.items():
